@@ -316,6 +316,47 @@ def comment_growth(t1, t2):
     return "[continuation lines grow by the indentation of the opening line; comment in: %s]" % ",".join(sorted(locs))
 
 
+_FORBIDDEN_IN_URI = re.compile(r""".*?[\(\)\s\;,'"]""", re.U)
+
+
+def ref_uri(v):
+    "reference copy of helper.uri at the pinned HEAD (quotes the value through helper.string only when it has to)"
+    return "url(%s)" % (ref_string(v) if _FORBIDDEN_IN_URI.match(v) else v)
+
+
+def explain_lines(t1, t2):
+    """every differing line of two serialisations must be explained by a HEAD behaviour that is on record:
+    number-rounding (N.0 -> N, -0.0 -> 0, 0.0px -> 0: c03_e2e._t_round maps the first line to the second) or the
+    HEAD shape of comment growth (comment_growth); otherwise a tag that no signature accepts"""
+    E = _e2e()
+    l1, l2 = t1.split("\n"), t2.split("\n")
+    if len(l1) != len(l2):
+        return "[line count differs]"
+    used = set()
+    k1, k2 = list(l1), list(l2)
+    for i, (x, y) in enumerate(zip(l1, l2)):
+        if x == y:
+            continue
+        if E._t_round(x) == y or E._t_round(x) == E._t_round(y):
+            used.add("number-rounding")
+            k1[i] = k2[i] = E._t_round(x)          # neutralised for the comment analysis below
+        elif x.lstrip(" \t") == y.lstrip(" \t"):
+            pass
+        elif E._t_round(x.lstrip(" \t")) == E._t_round(y.lstrip(" \t")):
+            used.add("number-rounding")
+            k1[i] = x[:_indent(x)] + E._t_round(x.lstrip(" \t"))
+            k2[i] = y[:_indent(y)] + E._t_round(y.lstrip(" \t"))
+        else:
+            return "[a differing line is explained neither by number rounding nor by comment indentation]"
+    g = comment_growth("\n".join(k1), "\n".join(k2))
+    m = re.match(r"\[continuation lines grow by the indentation of the opening line; comment in: ([a-z,-]+)\]$", g)
+    if m:
+        used.update("comment-growth(%s)" % x for x in m.group(1).split(","))
+    elif g != "[texts equal]":
+        return g
+    return "[differing lines explained by: %s]" % ", ".join(sorted(used))
+
+
 def refine(f, text, cause):
     """a tag that pins the HEAD behaviour of the cause family more exactly than the rule-based cause does; the signatures
     of the open findings demand the tag that HEAD produces, so a regression with the same cause but another shape
@@ -323,16 +364,17 @@ def refine(f, text, cause):
     kind = f.get("kind", "")
     t1, t2, d = f.get("text1"), f.get("text2"), str(f.get("detail") or "")
     try:
-        if cause.startswith("comment:"):
+        if cause.startswith("comment:") or cause.startswith('number: "%f"'):
             if isinstance(t1, str) and isinstance(t2, str) and t1 != t2:
-                return " " + comment_growth(t1, t2)
-            if kind.endswith("-model"):
+                return " " + explain_lines(t1, t2)
+            if cause.startswith("comment:") and kind.endswith("-model"):
                 m = re.search(r": (.*?) != (.*)$", d, re.S)
                 strip = lambda x: "\n".join(z.lstrip(" \t") for z in x.split("\n"))  # noqa
                 if m and strip(m.group(1)) == strip(m.group(2)):
                     return " [model only: comment text differs in the leading white space of continuation lines; texts equal]"
             return " [unrecognised shape]"
         if cause.startswith("string: escaped double quote") or cause.startswith("string/url: backslash"):
+            from css_parser import helper
             want = "double quote preceded by an odd number" if cause.startswith("string: escaped") else "backslash"
             ok = False
             for t in _tok1(text, True):
@@ -342,29 +384,17 @@ def refine(f, text, cause):
                         if "NOT" in head_tag(v):
                             return " [string written differently from the reference helper.string]"
                         ok = True
-                elif t[0] == "URI" and "\\" in t[1] and want == "backslash":
-                    ok = True
-            if not ok:
-                return " [no such string value in the input]"
-            if cause.startswith("string/url") and isinstance(t1, str) and isinstance(t2, str) and t1 != t2 and t2:
-                # the first difference must lie inside a string / url literal of the first text that has a backslash
-                n = next((i for i, (x, y) in enumerate(zip(t1, t2)) if x != y), min(len(t1), len(t2)))
-                pos = 0
-                inside = False
-                for t in _tok1(t1, True):
-                    end = pos + len(t[1])
-                    # token values are escape-resolved, so positions are approximate: allow the slack of the escapes
-                    if t[0] in ("STRING", "URI", "INVALID") and "\\" in t[1] and pos - 8 <= n <= end + 8 * (1 + t[1].count("\\")):
-                        inside = True
-                    pos = end
-                if not inside:
-                    return " [first difference is not at a string with a backslash]"
-            return " [input has such a value, written as the reference helper.string writes it]"
+                elif t[0] == "URI":
+                    v = helper.urivalue(t[1])
+                    if want in feature(v):
+                        if helper.uri(v) != ref_uri(v):
+                            return " [url written differently from the reference helper.uri]"
+                        ok = True
+            return " [input has such a value, written as the reference helper.string / helper.uri writes it]" if ok \
+                else " [no such string value in the input]"
         if cause.startswith("attribute selector:"):
-            import css_parser
             m = re.search(r"\['([^']*)', '[^']*'\] != ", d)
-            sheet = css_parser.CSSParser(raiseExceptions=False).parseString(text)
-            dflt = sheet.namespaces.get("", None)
+            dflt = _e2e()._parse(text).namespaces.get("", None)
             return " [the lost namespace is the default namespace]" if m and dflt is not None and m.group(1) == dflt \
                 else " [the lost namespace is NOT the default namespace]"
         if cause.startswith("calc:") and "RATIO" in cause:
@@ -377,32 +407,67 @@ def refine(f, text, cause):
     return ""
 
 
-def e2e_sig(f, text=None):
-    """canonical family text of an end-to-end failure: '<kind> :: <object class> [@path] :: <cause> [<HEAD shape tag>]'
-    (c03_e2e.family + refine).  When the rule-based cause is 'other' (e.g. a rule re-parsed in isolation behind the
-    sheet's serialised @namespace rules, where the broken string is not in the failing text) the string features of the
-    whole sheet are appended, so that the string findings are recognised there too."""
+def candidates(f, text):
+    """family texts of one end-to-end failure: '<kind> :: <object class> [@path] :: <cause> [<HEAD shape tag>]' for EVERY
+    rule of c03_e2e._CAUSES that fires (the first one is c03_e2e.family's).  A sheet-level failure is often the union of
+    several recorded behaviours; it counts as known when one candidate matches an open finding, and each candidate's tag
+    demands that the whole difference has the HEAD shape of its family.  'other' (no rule fires; e.g. a rule re-parsed in
+    isolation behind the sheet's serialised @namespace rules) gets the string features of the whole sheet."""
     E = _e2e()
-    fam = E.family(f)
-    if text is not None:
-        if fam.endswith(":: other"):
-            fam += sheet_feature(text)
+    base = E.family(f)
+    prefix, first = base.rsplit(" :: ", 1)
+    names = [first]
+    if not first.startswith("exception") and first != "other":
+        k, d = f.get("kind", ""), f.get("detail") or ""
+        t1, t2 = f.get("text1") or "", f.get("text2") or ""
+        t1, t2 = (t1 if isinstance(t1, str) else str(t1)), (t2 if isinstance(t2, str) else str(t2))
+        w1, w2 = E._window(f)
+        for name, test in E._CAUSES:
+            try:
+                if name not in names and test(k, w1, w2, d, t1, t2):
+                    names.append(name)
+            except Exception:  # noqa
+                pass
+    slash = 'unknown at-rule: "/" and "*" are glued into a comment start'
+    if slash not in names and text is not None and re.search(r"@[^;{}]*/\s+\*", text) and \
+            isinstance(f.get("text1"), str) and re.search(r"@[\w-]+[^;{}]*/\*", f["text1"]):
+        names.append(slash)      # the glued comment swallowed so much that the rule of c03_e2e sees no second text
+    out = []
+    for n in names:
+        if n == "other":
+            lost = " [the rule re-parsed in isolation is lost]" if "gives 0 rules" in str(f.get("detail") or "") else ""
+            out.append(prefix + " :: other" + lost + (sheet_feature(text) if text is not None else ""))
         else:
-            fam += refine(f, text, fam.rsplit(" :: ", 1)[-1])
-    return fam
+            out.append(prefix + " :: " + n + (refine(f, text, n) if text is not None else ""))
+    return out
+
+
+def e2e_sig(f, text=None):
+    return candidates(f, text)[0]
+
+
+def e2e_known(ctx, f, text):
+    "the candidate family text that matches an open finding, or None"
+    what = "re-parse of serialised text differs: " + f.get("kind", "")
+    for c in candidates(f, text):
+        if ctx.match_known(what + " :: " + c):
+            return c
+    return None
 
 
 def report_e2e(ctx, groups, total_budget):
-    """groups: cause family -> (smallest failing sheet, failure). Families matching an open finding are only counted;
-    the others are shrunk (within the total budget) and reported as violations."""
+    """groups: candidate family texts -> (smallest failing sheet, failure). Families of which a candidate matches an open
+    finding are only counted; the others are shrunk (within the total budget) and reported as violations."""
     E = _e2e()
     t_end = time.time() + total_budget
-    for fam, (text, f) in sorted(groups.items(), key=lambda kv: len(kv[1][0])):
+    for key, (text, f) in sorted(groups.items(), key=lambda kv: len(kv[1][0])):
+        fam = key.split(" || ")[0]
         what = "re-parse of serialised text differs: " + f.get("kind", "")
         w = {"level": "sheet", "text": text, "kind": f.get("kind"), "where": f.get("where"),
-             "text1": f.get("text1"), "text2": f.get("text2"), "detail": str(f.get("detail"))[:600], "family": fam}
-        if ctx.match_known(what + " :: " + fam):
-            ctx.violation(what, w, sig_text=fam)
+             "text1": f.get("text1"), "text2": f.get("text2"), "detail": str(f.get("detail"))[:600], "family": key}
+        known = e2e_known(ctx, f, text)
+        if known:
+            ctx.violation(what, w, sig_text=known)
             continue
         left = t_end - time.time()
         if left > 2:
@@ -421,13 +486,12 @@ def report_e2e(ctx, groups, total_budget):
 def group_e2e(results, groups, counts):
     for text, fails in results:
         for f in fails:
-            fam = e2e_sig(f, text)
-            counts[fam] = counts.get(fam, 0) + 1
-            if fam not in groups or len(text) < len(groups[fam][0]):
-                groups[fam] = (text, f)
+            key = " || ".join(candidates(f, text))
+            counts[key] = counts.get(key, 0) + 1
+            if key not in groups or len(text) < len(groups[key][0]):
+                groups[key] = (text, f)
 
 
-# ---------------------------------------------------------------------------------- the check
 def run(ctx):
     thorough = ctx.tier == "thorough"
     t_stage = time.time()
@@ -506,9 +570,9 @@ def run(ctx):
             E = _e2e()
             for text, fails in ctx.pool_map(e2e_case, args, procs=6, chunksize=8):
                 for f in fails:
-                    fam = e2e_sig(f, text)
-                    if not ctx.match_known("re-parse of serialised text differs: " + f.get("kind", "") + " :: " + fam):
-                        return {"level": "sheet", "text": text, "kind": f.get("kind"), "where": f.get("where"), "fails": fam}
+                    if not e2e_known(ctx, f, text):
+                        return {"level": "sheet", "text": text, "kind": f.get("kind"), "where": f.get("where"),
+                                "fails": e2e_sig(f, text)}
         return None
 
     ctx.finish({
@@ -543,7 +607,8 @@ def run_witness(ctx, w):
         E = _e2e()
         fails = e2e_text(w["text"])
         for f in fails:
-            ctx.violation("re-parse of serialised text differs: " + f.get("kind", ""), w, sig_text=e2e_sig(f, w["text"]))
+            ctx.violation("re-parse of serialised text differs: " + f.get("kind", ""), w,
+                          sig_text=e2e_known(ctx, f, w["text"]) or e2e_sig(f, w["text"]))
         return fails
     return None
 
